@@ -16,8 +16,9 @@
 (* parser never reaches "crash" on a token stream the scanner produces.    *)
 (*                                                                         *)
 (* Token kinds of Parser.tla: a %TAG directive / tag with a named handle   *)
-(* is DT1 / TAGH1 (all named handles are one handle, as in Parser.tla);    *)
-(* reserved directives and %TAG for the handles ! and !! have no kind in   *)
+(* is DT1 / TAGH1 (all named handles are one handle, as in Parser.tla); a  *)
+(* single %TAG for ! or !! in a document is DT1 too; reserved directives   *)
+(* and several %TAG directives with a default handle have no kind in       *)
 (* Parser.tla: "UNSUP", which no document of the domain contains.          *)
 (***************************************************************************)
 EXTENDS Scanner, Json, IOUtils
@@ -33,7 +34,13 @@ Inputs == IF FromFile THEN JsonDeserialize(IOEnv.TRACE_FILE) ELSE <<>>
 
 \* the number written in a %YAML directive is 1 (the parser accepts major version 1 only)
 IsOne(a) == a # <<>> /\ inp[a[Len(a)]] = "1" /\ \A j \in 1 .. Len(a) - 1 : inp[a[j]] = "0"
-Kind(t) ==
+\* the directives of one document form a block of consecutive DIRECTIVE tokens
+RECURSIVE DirFrom(_), DirTo(_)
+IsDir(j) == j \in DOMAIN out /\ out[j].k = "Directive"
+DirFrom(j) == IF IsDir(j - 1) THEN DirFrom(j - 1) ELSE j
+DirTo(j) == IF IsDir(j + 1) THEN DirTo(j + 1) ELSE j
+TagDirsAround(j) == {i \in DirFrom(j) .. DirTo(j) : out[i].x = "TAG"}
+Kind(j) == LET t == out[j] IN
   CASE t.k = "StreamStart" -> "SS" [] t.k = "StreamEnd" -> "SE"
     [] t.k = "DocumentStart" -> "DS" [] t.k = "DocumentEnd" -> "DE"
     [] t.k = "BlockSequenceStart" -> "BSS" [] t.k = "BlockMappingStart" -> "BMS" [] t.k = "BlockEnd" -> "BEND"
@@ -42,12 +49,15 @@ Kind(t) ==
     [] t.k = "BlockEntry" -> "BENTRY" [] t.k = "FlowEntry" -> "FENTRY" [] t.k = "Key" -> "KEY" [] t.k = "Value" -> "VALUE"
     [] t.k = "Alias" -> "ALIAS" [] t.k = "Anchor" -> "ANCHOR" [] t.k = "Scalar" -> "SCALAR"
     [] t.k = "Tag" -> IF t.x = "handle" /\ Len(t.a) > 2 THEN "TAGH1" ELSE "TAG"
-    [] t.k = "Directive" -> IF t.x = "YAML" THEN (IF IsOne(t.a) THEN "DY1" ELSE "DY2")
-                            ELSE IF t.x = "TAG" /\ Len(t.a) > 2 THEN "DT1" ELSE "UNSUP"
+    [] t.k = "Directive" ->
+         IF t.x = "YAML" THEN (IF IsOne(t.a) THEN "DY1" ELSE "DY2")
+         \* a %TAG directive is Parser.tla's DT1 when it names a handle, and also when it redefines ! or !! and is the only
+         \* %TAG directive of its document (then no duplicate is possible and ! / !! are defined anyway)
+         ELSE IF t.x = "TAG" /\ (Len(t.a) > 2 \/ Cardinality(TagDirsAround(j)) = 1) THEN "DT1" ELSE "UNSUP"
 
 \* the scanner hands the next delivered token to the parser
 Feed == /\ pc = "end" /\ res = "ok" /\ pk = "none" /\ st \notin {"done", "error", "crash"} /\ n < Len(out)
-        /\ pk' = Kind(out[n + 1]) /\ ev' = P!NoEv
+        /\ pk' = Kind(n + 1) /\ ev' = P!NoEv
         /\ UNCHANGED <<st, states, marks, n, blk, ind, pa, pt, ps, pe, ptm, tagok, tokend, dsm, ver, handles, perr, pmon,
                        lastStart, ptoks, pout, tid, cls>>
         /\ UNCHANGED vars
